@@ -3,6 +3,7 @@
 B2Z_VERIF_INJECT = JSON {"target": "explode"|"encode"|"plink", "index": j, "mode": "raise"|"die"}
 The partition / slice with the given index fails inside whichever process runs it.
 """
+import functools
 import json
 import os
 
@@ -20,12 +21,16 @@ if _spec:
                 if _core._progress_counter is not None:
                     _core._progress_counter.get_lock().acquire()
                 os._exit(78)
+            if _spec["mode"] == "oserror":
+                import errno
+                raise OSError(errno.ENOSPC, "No space left on device (injected)")
             raise KeyError(f"injected failure in {_spec['target']} task {_spec['index']}")
 
         if _spec["target"] == "explode":
             from bio2zarr.vcf2zarr import icf as _icf
             _orig = _icf.IntermediateColumnarFormatWriter.process_partition
 
+            @functools.wraps(_orig)
             def _pp(self, partition_index, _orig=_orig):
                 if partition_index == _spec["index"] % self.num_partitions:
                     _fail()
@@ -35,6 +40,7 @@ if _spec:
             from bio2zarr.vcf2zarr import icf as _icf
             _orig = _icf.scan_vcf
 
+            @functools.wraps(_orig)
             def _sv(*a, _orig=_orig, **k):
                 _fail()
             _icf.scan_vcf = _sv
@@ -42,6 +48,7 @@ if _spec:
             from bio2zarr.vcf2zarr import vcz as _vcz
             _orig = _vcz.VcfZarrWriter.encode_partition
 
+            @functools.wraps(_orig)
             def _ep(self, partition_index, _orig=_orig):
                 if partition_index == _spec["index"] % self.num_partitions:
                     _fail()
@@ -52,6 +59,7 @@ if _spec:
             _orig = _plink.encode_genotypes_slice
             _count = {"n": 0}
 
+            @functools.wraps(_orig)
             def _es(bed_path, zarr_path, start, stop, _orig=_orig):
                 # index = position of the slice: start // (stop - start) is not reliable; use env-provided starts
                 if start == _spec["index"]:
